@@ -21,6 +21,11 @@ CLAIMED = {
         "text": "C04_aligned / C04_finger_aligned / C04_actual_cfg_ok / C04_ctor_refuses: every pointer handed out is aligned to the request and to MIN_ALIGN; the constants exported by the built crate are re-checked on every run (ConstsActualOk.v); constructors refuse exactly the unsupported MIN_ALIGN values (checked against the real constructors for 16 values of MIN_ALIGN). " + ARENA_TEXT,
         "design_ref": "DESIGN.md §6 C04",
     },
+    "C02": {
+        "technique": "Coq proof (the copies of grow/shrink stay inside the block handed out, copy_nonoverlapping only on disjoint ranges, prefix preserved; frame from C01 disjointness) + byte-level driver checks",
+        "text": "C02_shrink_copies / C02_grow_copies / C02_frame / C02_alloc_copies_nothing / C02_dealloc_copies_nothing over a byte-memory model; the driver writes PRNG patterns into every block, re-reads every live block after every fourth operation and at the end, and logs closure call orders of the fill flavours. " + ARENA_TEXT + "Partial: value initialisation by the typed flavours is glue outside the model (driver-checked only).",
+        "design_ref": "DESIGN.md §6 C02",
+    },
     "C03": {
         "technique": "Coq proof (structural case analysis of every operation + chunk disjointness invariant) + allocator-ledger correspondence",
         "text": "C03_frees / C03_no_early_free / C03_held_disjoint_from_static: only reset and drop give blocks back, exactly the ones they should, each recorded with the layout it was requested with; held blocks are pairwise disjoint and disjoint from the static. " + ARENA_TEXT + "The tracking allocator's ledger (apply_frees, extracted) is checked on every run, under fault plans.",
@@ -45,6 +50,16 @@ CLAIMED = {
         "technique": "Coq proof (iteration shape and containment from the safety invariant) + correspondence",
         "text": "C10_iter_shape / C10_live_contained / C10_slices_disjoint. " + ARENA_TEXT + "Partial: the 'no other bytes' clause for uniform allocations is decided on the implementation only (sp_iter_ok + exact chunk lists compared with the model).",
         "design_ref": "DESIGN.md §6 C10",
+    },
+    "C11": {
+        "technique": "Coq proof (rewind restores the exact pre-call finger / the fresh chunk's full capacity: same request, same address, no allocator request) + probe in the driver",
+        "text": "C11_no_run_without_space / C11_rewind_restores / C11_ok_keeps_slot; the driver follows every failed initialiser that allocated nothing by a probe request of the same layout (must be served without a global-allocator request), checks the error value byte for byte, and covers initialisers that allocate and keep / release / nest. " + ARENA_TEXT + "Partial: validity of blocks kept by a failing initialiser across the rewind is decided on the implementation only (sp_block_ok + contents).",
+        "design_ref": "DESIGN.md §6 C11",
+    },
+    "C12": {
+        "technique": "Coq proof (corollaries of the safety invariant and of the byte-memory lemmas for the Allocator entry points) + Allocator-trait driver",
+        "text": "C12_block_fits / C12_grow_keeps_prefix / C12_shrink_keeps_prefix / C12_grow_zeroed_tail / C12_err_keeps_old / C12_deallocate_any_order; every deallocate/grow/grow_zeroed/shrink in the arena histories goes through allocator_api2's Allocator on &Bump<M>, with differing old/new alignments, zero sizes, lucky alignments, several live blocks. " + ARENA_TEXT + "Partial: standard collections parameterised by the arena are not exercised.",
+        "design_ref": "DESIGN.md §6 C12",
     },
     "C13": {
         "engine": "vec",
